@@ -7,3 +7,4 @@ import Peppi.Props.C15
 #print axioms Peppi.Props.C15.C15_first_unique
 #print axioms Peppi.Props.C15.C15_last_unique
 #print axioms Peppi.Props.C15.C15_last_nodup
+#print axioms Peppi.Props.C15.C15_modes_mirror
